@@ -52,6 +52,34 @@ CLAIMED = {
         'binary window runs. Trusted: driver, shim host-name pinning.',
    technique='Coq proof (loop invariant relating the copy loop to the component decomposition) + exhaustive differential correspondence + boundary-window runs',
    ref='DESIGN 6 C18'),
+ 'C01': dict(
+   text='Coq theorems about interaction-tree models of maildir_move (rename and EXDEV copy paths, maildir or stdin source), maildir_write (label / add-header), '
+        'message_write and discard over an abstract file system (names -> inodes -> empty/partial/complete + durable): for a single failing outcome at ANY call '
+        'index the message exists exactly once intact with no stray left, a failure at a reported site gives a non-zero status, status 0 implies final place and '
+        'content; two faults never lose the message. Proved by vm_compute sweeps over the finite scenario space lifted to all indices (run_ext). The clause '
+        '"every failure is reported" is restricted to reported sites; tolerated sites are refuted by witness and pinned as F-15. Tied by enumerating every call '
+        'index x failure of interposed runs of the binary, normalising the action phase to the model vocabulary (model must issue the same calls) and judging the final tree.',
+   note='Trusted: shim/libvfio.so (fault semantics: failing call has no effect; close/fclose release; failing stdio writes leave partial data), trace normaliser, '
+        'the abstraction of all fprintf calls of message_write into one Write op and of EEXIST retries into one Creat. Lifting over several messages/actions is by '
+        'construction (disjoint names), exercised by multi-message scenarios through the monitor only. Defects F-01, F-04 repaired by fix: commits.',
+   technique='Coq proof (finite sweeps over interaction trees lifted by an oracle-extensionality lemma) + exhaustive single-fault enumeration against the binary',
+   ref='DESIGN 6 C01'),
+ 'C02': dict(
+   text='Coq theorem over the same models: for the fault-free run and every single-fault run, at EVERY kill point and in EVERY power-failure state (any persisted '
+        'prefix of directory operations, file data only as fsynced) some name holds a complete copy. Tied by SIGKILL before every call of interposed runs (tree judged) '
+        'and by pushing the implementation\'s own normalised traces through the model\'s crash semantics (IODefs.crash_violation).',
+   note='Storage model as in the property text; directory fsync outside it. Trusted as C01.',
+   technique='Coq proof (finite sweeps of crash states lifted to all indices) + kill-point enumeration + crash analysis of implementation traces',
+   ref='DESIGN 6 C02'),
+ 'C04': dict(
+   text='Coq theorems about the model of main(): exit 0 iff configuration ok and no message/maildir error (and no reject on stdin); any error or configuration error '
+        'gives non-zero (75 on stdin); stdin status in {0,1,75} with 1 iff reject and no error; every message of every maildir is examined whatever happened before; '
+        'per-action status soundness from C01. The stdin clause "0 only if stored or discarded" is refuted (no rule matches: F-12, known finding). Tied by populations '
+        'with individually defective messages (8 defect kinds + attachment blocks + unusable maildirs), stdin outcome cases and every single fault of stdin deliveries.',
+   note='The model of main() is a thin fold over observed per-message outcomes; what makes a message an error is tied by the population runs, not proved. '
+        'F-18 (errc in maildir_set_path aborts the run) is not exercised by this check.',
+   technique='Coq proof (fold invariants) + differential population runs + fault enumeration in stdin mode',
+   ref='DESIGN 6 C04'),
 }
 
 ALL = ['C%02d' % i for i in range(1, 19)]
